@@ -230,6 +230,8 @@ def fixture_params(name):
         P = {"forecasters": [("f1", naive()), ("f2", naive(strategy="mean"))]}
     elif name == "RandomIntervalFeatureExtractor":
         P = {"n_intervals": 2}
+    elif name.endswith("MetricFunctionWrapper"):
+        P = {"func": np.mean}
     elif name in ("TSCStrategy", "TSRStrategy"):
         P = {"estimator": tsfc()}
     return P
@@ -484,9 +486,17 @@ def _probe_class(module, name, key, table_params, do_fit=True, budget_s=20.0):
     obs["params"] = [p.name for p in params]
     required = {p.name: Sentinel("req-" + p.name) for p in params if p.default is p.empty}
     fam = family(cls)
+    try:
+        fx = fixture_params(name)
+    except BaseException:
+        fx = {}
+    required = {k: fx.get(k, v) for k, v in required.items()}
     # ---- constructor contract, probed with values no constructor should look into
     ctor = []
     for p in params:
+        if inspect.isabstract(cls):
+            ctor.append("skip")          # abstract by declaration (abc): cannot be instantiated at all
+            continue
         worst = "S"
         weird = [Sentinel(p.name), None, 0, "zz", -1]
         for w in weird:
@@ -513,11 +523,7 @@ def _probe_class(module, name, key, table_params, do_fit=True, budget_s=20.0):
         ctor.append(worst)
     obs["ctor"] = ctor
     # ---- default instance
-    try:
-        fx = fixture_params(name)
-    except BaseException:
-        fx = {}
-    required_fx = {k: fx.get(k, v) for k, v in required.items()}
+    required_fx = dict(required)
     try:
         with warnings.catch_warnings():
             warnings.simplefilter("ignore")
